@@ -25,6 +25,29 @@ type IntV struct {
 	Bits   Layout
 	Why    string
 	ML     *MinLen
+	Tab    *TabRef // (ranges only) the value is Vals[Idx(t)] of a constant table
+}
+
+// TabRef records that a value was loaded from a constant integer table at an index affine in t.
+type TabRef struct {
+	Vals []int64
+	Idx  Lin
+}
+
+// At returns the value in iteration t when it is determined by t alone.
+func (v IntV) At(t int64) (int64, bool) {
+	switch {
+	case v.Kind == ikLin:
+		return v.L.At(t), true
+	case v.Kind == ikRange && v.Tab != nil:
+		i := v.Tab.Idx.At(t)
+		if i >= 0 && i < int64(len(v.Tab.Vals)) {
+			return v.Tab.Vals[i], true
+		}
+	case v.Kind == ikRange && v.Lo == v.Hi:
+		return v.Lo, true
+	}
+	return 0, false
 }
 
 const (
@@ -458,6 +481,15 @@ func (f FuncV) String() string { return "func:" + f.Fn.String() }
 type ExtGlobalV struct{ Name string }
 
 func (e ExtGlobalV) String() string { return "ext:" + e.Name }
+
+// asErr views an abstract value as an error value; anything that is not a recognised error
+// value is an unknown error (never nil by default).
+func asErr(v AV) ErrV {
+	if ev, ok := v.(ErrV); ok {
+		return ev
+	}
+	return ErrV{Kind: ekUnknown, From: fmt.Sprint(v)}
+}
 
 // GlobalValV is "the current value of module global G" for globals the analysis does
 // not fold (interfaces such as the randomness source).
